@@ -38,3 +38,7 @@ def run(ctx):
     ctx.cov["exhaustive"] = not ctx.quick
     ctx.assume("time-dependent currents are validated by the code at random sample times; the instances are unbalanced on at "
                "least 60% of the run, narrower imbalance windows are outside what is exercised")
+
+
+def replay(ctx, path):
+    return rf.replay_file(ctx, path, rf.INV_C19, "C19")
